@@ -272,7 +272,14 @@ def reroute(rng, ops, p=0.2):
 
 # ---- length sweep: every number of units 1..N in one call, once per mode and run (an internal batch / window / stride constant of any
 # value up to N shows at its multiples), followed by the state and a little more data on the same object ----
+def light():
+    import os
+    return os.environ.get("VERIF_LIGHT") == "1"
+
+
 def sweep_cases(rng, fam, mode, N):
+    if light():
+        N = min(N, 48)
     base = "cbc-enc" if fam in ("buf", "cts") else mode
     # several (block size, width) configurations take turns over the lengths (a constant may be in bytes or in blocks, and
     # may interact with a block size that does not divide it)
@@ -313,6 +320,8 @@ def sweep_cases(rng, fam, mode, N):
 
 def manycalls_case(rng, fam, mode, ncalls):
     """one object, several hundred small calls (anything that counts calls, or wraps a per-call index)"""
+    if light():
+        ncalls = min(ncalls, 40)
     base = "cbc-enc" if fam in ("buf", "cts") else mode
     bs, w = small_matrix(rng, base, 8 if fam in ("block", "buf") else 16)
     key = rb(rng, 16)
